@@ -18,11 +18,17 @@
    gen/LL1_<v>.v computes the least such H from the regenerated automata - file_input, suite, stmt, compound_stmt and
    the compound statements; no expression rule, no simple statement - and discharges confine_ok by vm_compute
    (C05_errors_confined_<v>).
-   Not proved (C05_partial): conformance of the non-error nodes of RECOVERED trees and of runs that use the
-   missing-newline repair - decided by the conformance predicate on implementation trees and the parse correspondence. *)
+   Recovered trees and runs that use the missing-newline repair (EngineRecover.v), both modes, every token list: the tree is the
+   conversion of the collapsed form of a derivation with error markers in which every rule node - also inside error nodes - is
+   a complete instance of its rule, where an error marker stands for a possibly empty sequence of nonterminal arcs, the `stmt`
+   arc of a suite may be taken without a child (the fix-up of error_recovery) and the NEWLINE arc of a simple_stmt may be taken
+   without a child (final newline absent).
+   Not proved (C05_partial): that the childless `stmt` arc of a suite is only taken when the suite holds an error marker, and that
+   yield of the derivation is the token word for recovered trees (parse_keeps gives the leaves) - decided by the conformance
+   predicate on implementation trees and the parse correspondence. *)
 From Coq Require Import List NArith Bool.
 Import ListNotations.
-Require Import Regex Tok Engine LL1 LL1Inst LL1Engine EngineSound EngineConfine.
+Require Import Regex Tok Engine LL1 LL1Inst LL1Engine EngineSound EngineConfine EngineRecover.
 
 Theorem C05_abstract_sound : forall (T St Lb Rl : Type) (mk_node : Rl -> list T -> T)
     (arcT : St -> Lb -> option St) (arcN : St -> Rl -> option St) (start : Rl -> St) (final : St -> bool) (rule_of : St -> Rl)
@@ -65,3 +71,10 @@ Theorem C05_errors_confined : forall G TR H, confine_ok G TR H = true ->
   parse G TR recover start toks = POk t -> good H t = true.
 Proof. exact errors_confined. Qed.
 Print Assumptions C05_errors_confined.
+
+(* every tree the engine returns - recovering or strict, with or without the missing-newline repair *)
+Theorem C05_recovered_conform : forall G TR, tables_sound_ok G TR = true ->
+  forall recover S0 toks t, parse G TR recover S0 toks = POk t ->
+  exists R kb, rwf G (RNode R kb) /\ convert_node G R (map (rcollapse G) kb) = POk t.
+Proof. exact recovered_conform. Qed.
+Print Assumptions C05_recovered_conform.
